@@ -11,6 +11,7 @@ import Driver.Early
 import Driver.EarlyStep
 import Driver.Registry
 import Driver.Reg2
+import Driver.PidRegistry
 import Driver.Pg
 import Driver.C16
 import Driver.C20
@@ -47,6 +48,7 @@ def main (args : List String) : IO UInt32 := do
       | "c07-earlystep" => Driver.EarlyStepD.run ops impl
       | "registry" => Driver.Registry.run ops impl
       | "reg2" => Driver.Reg2D.run ops impl
+      | "pidreg" => Driver.PidRegistry.run ops impl
       | "pg" => Driver.Pg.run ops impl
       | "c16" => Driver.C16.run ops impl
       | "c20" => Driver.C20.run ops impl
